@@ -71,3 +71,22 @@ long bad_r4_mod(double a, double b)
 }
 
 }
+
+namespace xvfix {
+
+// ---- R8: integer division by a run-time divisor
+unsigned long bad_r8_div(unsigned long len, unsigned long groupSize)
+{
+    if (len <= groupSize)
+        return len;
+    return len + len / groupSize;          // groupSize == 0 and len > 0
+}
+
+unsigned long good_r8_div(unsigned long len, unsigned long groupSize)
+{
+    if (groupSize == 0)
+        return len;
+    return len + len / groupSize;
+}
+
+}
